@@ -17,6 +17,7 @@
 //	           ammo = number of ammo (-1 endless); tokens = once(tokens) (-1 = unlimited 1h schedule);
 //	           fault = none|prov|aggr|gun|warm|sched|bind|panic|provnil|aggrnil at position k, or a REAL provider:
 //	           dopen|dopenlate|ddecode|dok|jsonbad|httpbad (see realProvider), gj-<poison>-<passes>-<limit>-<coe>-<maxsize>
+//	           a REAL aggregator: eopen|eenc|eflush|eclose|eencclose|eok (see realaggr.go); the real grpc gun: gw-... (see grpcwarm.go);
 //	           (the real grpc/json provider on k good lines, a broken element, `ammo` good lines; gate 1 = short reads; see gjPlan);
 //	           optional 9th field: the VALUE of the prov/aggr error (plain|wdeadline|wcancel|fmtcancel|nettimeout|joined);
 //	           gate 1 = provider/aggregator fail only once their context is cancelled
@@ -916,9 +917,13 @@ func runCase(line string) string {
 		if rp := realProvider(pm, pl); rp != nil {
 			provComp = rp
 		}
+		var aggrComp core.Aggregator = aggr
+		if ra := realAggregator(pm, pl); ra != nil {
+			aggrComp = ra
+		}
 		pc := engine.InstancePoolConfig{
 			Provider:        provComp,
-			Aggregator:      aggr,
+			Aggregator:      aggrComp,
 			RPSPerInstance:  !pl.shared,
 			StartupSchedule: schedule.NewOnce(int64(pl.n)),
 		}
@@ -1309,6 +1314,16 @@ func gen(r *vh.Rand, tier string) []string {
 		gwCase("shoot2", "ok", "ok", []string{okSvc(), okSvc()}, 0)
 		gwCase(r.Pick([]string{"shoot1", "timed300"}), "ok", "ok", []string{"e5", okSvc()}, 0)
 		gwCase("pre", "ok", "ok", []string{okSvc()}, 0)
+		// the REAL encoder aggregator as a component, on an encoder / data sink that fails before the first sample, at a
+		// sample mid-run, at the periodic or the final flush, at the close of the sink (the very end), or twice
+		for _, ft := range []string{"eopen", "eenc", "eenc", "eflush", "eflush", "eclose", "eencclose", "eencclose", "eok"} {
+			p := poolPlan{n: r.Range(1, 3), shared: r.Bool(), ammo: r.Range(3, 8), tokens: r.Range(3, 6), fault: ft, k: r.Range(1, 3), gate: r.Bool(), ctxret: r.Bool()}
+			line := "run " + r.Pick([]string{"none", "none", "none", "after"}) + " " + poolStr(p)
+			if r.Chance(1, 3) {
+				line += " " + poolStr(healthy)
+			}
+			out = append(out, line)
+		}
 		// the caller cancels at the very moment Engine.Run has taken a pool's result (failing or nil) from its channel
 		for _, ft := range []string{"gun", "warm", "sched", "bind", "panic", "prov", "aggr", "none"} {
 			p := poolPlan{n: r.Range(1, 3), shared: true, ammo: r.Range(2, 8), tokens: r.Range(2, 6), fault: ft, ctxret: r.Bool()}
